@@ -62,7 +62,10 @@ def select(behs, cap, seed, coarse):
         b = best[k]
         kk = b["key"]
         last = b["steps"][-1]["k"]
-        hot = (kk["tls"] == "Required" and not kk["enc"]) or last in ("Cut", "Disconnect", "SeeOtherHost") or kk["sig"]
+        pv = kk.get("prev") or {}
+        carried = (not pv.get("none", True)) and (pv.get("authed") or pv.get("enc") or pv.get("session") or pv.get("sm"))
+        hot = (kk["tls"] == "Required" and not kk["enc"]) or last in ("Cut", "Disconnect", "SeeOtherHost") or kk["sig"] \
+            or (carried and b["steps"][-1]["k"] in ("Features", "Hdr", "Connect", "Success", "Success2", "BindResult", "Enabled", "Resumed", "SmFailed"))
         (prio if hot else rest).append(b)
     rnd = random.Random(seed)
     rnd.shuffle(prio)
@@ -115,7 +118,7 @@ def generate(chk):
     else:
         tour, st = vf.tlc_gen("ClientStreamGen.tla", "ClientStreamGenTour.cfg" if quick else "ClientStreamGenTourFull.cfg",
                               keep_prefixes=True, steps_key=None, heap="8g", timeout=3600)
-        chosen, sel = select(tour, 2500 if quick else 40000, chk.seed, coarse=quick)
+        chosen, sel = select(tour, 4000 if quick else 60000, chk.seed, coarse=quick)
         behs = []
         for b in chosen:
             behs.append({"cfg": b["cfg"], "steps": b["steps"] + epilogue(b["cfg"], b["key"]["endSock"])})
